@@ -8,9 +8,9 @@ import (
 	"encoding/json"
 	"time"
 
+	"github.com/gauss-project/aurorafs/pkg/p2p/streamtest"
 	"github.com/gauss-project/aurorafs/pkg/pingpong"
 	ppb "github.com/gauss-project/aurorafs/pkg/pingpong/pb"
-	"github.com/gauss-project/aurorafs/pkg/p2p/streamtest"
 	"github.com/gogo/protobuf/proto"
 
 	"verifharness/hx"
